@@ -52,6 +52,8 @@ def _is_state_store(n):
 
 
 def run(ck, m):
+    from rules.common import rule_memo_safety
+    rule_memo_safety(ck, m, "MEMO", "C08")          # first: a memoised helper also hides the code it wraps from the rules below
     cls = m.get(IT, "RenderIterator")
     # ---- R1 / R2 --------------------------------------------------------------------------
     for meth in CONTROL:
@@ -221,8 +223,6 @@ def run(ck, m):
     from rules.c09 import rule_padding_after_cache
     rule_padding_after_cache(ck, m, "R7")
 
-    from rules.common import rule_memo_safety
-    rule_memo_safety(ck, m, "MEMO", "C08")
 
 
 def rule_padded_size_maintained(ck, m, rid):
